@@ -17,7 +17,7 @@ register(
         "GtModel.strLt_total",
         "GtModel.strLt_irrefl",
     ],
-    streams=["script"],
+    streams=["script", "mixedkeys"],
     assumptions=[
         "objects have distinct keys (Doc.distinctKeys / Tree.WF) where stated",
         "sorted(kvps) in DictNode.from_dict is modelled by an insertion sort on the keys (for distinct keys every correct sort agrees)",
